@@ -105,6 +105,11 @@ CHECKS = {
             'All 174 public indicators with default, small-window and alternative-window parameters and every accepted source type are evaluated on lengths 100..480 around the warm-up window: every sequential field has one '
             'entry per candle; up to the window the last sequential entry equals the non-sequential result; beyond it the non-sequential result equals the sequential result on the trailing 240 candles.',
             'Clause (b) is demanded up to the warm-up window only (beyond it the non-sequential path slices, and (c) applies). Tolerance 1e-9 relative.', 'DESIGN.md 3/C14'),
+    'C15': ('lattice', 'exhaustive enumeration of period x source type x series menu (+ all candle words of length 8 for periods 2, 3) against independent reference implementations written from the textbook definitions',
+            'About 40 core indicators (moving averages, RSI, ATR/NATR, MACD, Bollinger/Keltner/Donchian, stochastic, CCI, ROC family, momentum, OBV, Williams %R, MFI, ADX/DI/DM, standard deviation, price transforms) '
+            'are compared with plain reference implementations: window functions exactly, recursive smoothers in their recurrence step on their own output and in value once the seed has decayed below 1e-12; '
+            'ma(matype=k) against the k-th moving average for every supported matype, sequential and not; ranges, band ordering, channel enclosure, non-negativity and price homogeneity on every series.',
+            'Periods 2..60 (quick: 2,3,5,14,30,60), 8 source types (quick 3), series: constant, monotone up/down, alternating, walk, x1e6, x1e-6.', 'DESIGN.md 3/C15'),
 }
 
 NOT_APPLICABLE = {}
